@@ -2,4 +2,4 @@
 
 package rockredis
 
-func verifPoint(name string) {}
+func (r *RockDB) verifPoint(name string) {}
